@@ -131,6 +131,7 @@ type sentPacket struct {
 	recvd  bool
 	acked  bool
 	broken bool // callback address without callback(): can never be acknowledged
+	stuck  bool // an acknowledgement of the received packet was rejected
 }
 
 type run struct {
@@ -371,6 +372,7 @@ func (r *run) exec(op Op) *Step {
 		if _, err := r.w.RelayAck(sp.p, ack); err != nil {
 			st.Class = 1
 			st.Note = short(err.Error())
+			sp.stuck = sp.recvd
 			break
 		}
 		sp.acked = true
@@ -414,7 +416,7 @@ func short(s string) string {
 func runHistory(spec Spec) Result {
 	r := &run{spec: &spec}
 	r.setup()
-	res := Result{Init: r.observe()}
+	res := Result{Init: r.observe(), Steps: []Step{}}
 	if len(spec.Ops) == 0 && spec.NOps > 0 {
 		g := hlib.NewRand(spec.Seed)
 		for i := 0; i < spec.NOps; i++ {
